@@ -1,10 +1,19 @@
 package main
 
 import (
+	"bytes"
 	"go/ast"
+	"go/printer"
 	"go/token"
 	"strconv"
+	"strings"
 )
+
+func exprString(e ast.Expr) string {
+	var b bytes.Buffer
+	printer.Fprint(&b, fset, e)
+	return b.String()
+}
 
 // C13: constants and small structural facts the decoder / escaper / position models are parameterised by.
 func init() {
@@ -50,6 +59,7 @@ func init() {
 		// NewFieldsFromKVString: `if len(v) > N { error }` inside the range loop; is there a second length test
 		// after the strconv.Unquote call?
 		limit := int64(-1)
+		limitAfter := int64(0)
 		testsAfterUnquote := false
 		if f := parseFile("pkg/model/field/field.go"); f != nil {
 			fd := funcDecl(f, "", "NewFieldsFromKVString")
@@ -92,8 +102,9 @@ func init() {
 					if limit < 0 {
 						limit = n64
 					}
-					if unquotePos != token.NoPos && is.Pos() > unquotePos {
+					if unquotePos != token.NoPos && is.Pos() > unquotePos && !testsAfterUnquote {
 						testsAfterUnquote = true
+						limitAfter = n64
 					}
 					return true
 				})
@@ -107,6 +118,73 @@ func init() {
 		l.p("def fieldMaxLen : Nat := %d", limit)
 		l.p("/-- is the length tested again after `strconv.Unquote` (which can make a value longer)? -/")
 		l.p("def fieldLenTestedAfterUnquote : Bool := %s", leanBool(testsAfterUnquote))
+		l.p("/-- the limit of that second test (0 when there is none) -/")
+		l.p("def fieldMaxLenAfterUnquote : Nat := %d", limitAfter)
+
+		// --- api/rpc: the length guard in front of xbinary.UnmarshalString (commit dbbc1a7) ------------------------
+		// fact: api/rpc has a function unmarshalString whose first statement is `if idx, uln, err := xbinary.UnmarshalUint(buf);
+		// err == nil && uln > uint(len(buf)-idx) { return … error }`, and no decoder of api/rpc calls xbinary.UnmarshalString /
+		// UnmarshalBytes directly (only that wrapper does).
+		guard, outside := false, 0
+		for _, rel := range []string{"api/rpc/encoder.go", "api/rpc/ingestor.go", "api/rpc/querier.go", "api/rpc/admin.go", "api/rpc/pipes.go", "api/rpc/client.go", "api/rpc/server.go"} {
+			f := parseFile(rel)
+			if f == nil {
+				continue
+			}
+			for _, d := range f.Decls {
+				fd, ok := d.(*ast.FuncDecl)
+				if !ok || fd.Body == nil {
+					continue
+				}
+				isWrapper := fd.Recv == nil && fd.Name.Name == "unmarshalString"
+				if isWrapper && len(fd.Body.List) > 0 {
+					if is, ok := fd.Body.List[0].(*ast.IfStmt); ok && is.Init != nil {
+						initOK := false
+						if as, ok := is.Init.(*ast.AssignStmt); ok && len(as.Rhs) == 1 {
+							if ce, ok := as.Rhs[0].(*ast.CallExpr); ok {
+								if se, ok := ce.Fun.(*ast.SelectorExpr); ok && se.Sel.Name == "UnmarshalUint" {
+									initOK = true
+								}
+							}
+						}
+						condOK := false
+						ast.Inspect(is.Cond, func(n ast.Node) bool {
+							if be, ok := n.(*ast.BinaryExpr); ok && be.Op == token.GTR {
+								x, okx := be.X.(*ast.Ident)
+								if okx && x.Name == "uln" && strings.Replace(exprString(be.Y), " ", "", -1) == "uint(len(buf)-idx)" {
+									condOK = true
+								}
+							}
+							return true
+						})
+						retOK := false
+						for _, st := range is.Body.List {
+							if rs, ok := st.(*ast.ReturnStmt); ok && len(rs.Results) == 3 {
+								if id, ok := rs.Results[2].(*ast.Ident); !ok || id.Name != "nil" {
+									retOK = true
+								}
+							}
+						}
+						guard = initOK && condOK && retOK
+					}
+				}
+				if !isWrapper {
+					ast.Inspect(fd.Body, func(n ast.Node) bool {
+						if ce, ok := n.(*ast.CallExpr); ok {
+							if se, ok := ce.Fun.(*ast.SelectorExpr); ok && (se.Sel.Name == "UnmarshalString" || se.Sel.Name == "UnmarshalBytes") {
+								if id, ok := se.X.(*ast.Ident); ok && id.Name == "xbinary" {
+									outside++
+								}
+							}
+						}
+						return true
+					})
+				}
+			}
+		}
+		l.p("/-- api/rpc decodes every length-prefixed string through `unmarshalString`, which rejects a length prefix that exceeds the")
+		l.p("bytes left in the buffer before calling `xbinary.UnmarshalString` (direct library calls elsewhere in api/rpc: %d) -/", outside)
+		l.p("def rpcStringLengthGuard : Bool := %s", leanBool(guard && outside == 0))
 
 		// --- EscapeJsonStr ------------------------------------------------------------------------------------
 		// `if c != utf8.RuneError || size != 1 { i += size; continue }` — the test that lets a well-formed U+FFFD advance
